@@ -22,7 +22,7 @@ BIN = {0: (operator.add, np.add), 1: (operator.sub, np.subtract), 2: (operator.m
        9: (operator.lt, np.less), 10: (operator.ge, np.greater_equal), 11: (operator.ne, np.not_equal)}
 IOP = {0: operator.iadd, 1: operator.isub, 2: operator.imul, 3: operator.itruediv}
 UN = {0: (operator.neg, np.negative), 1: (abs, np.absolute), 2: (lambda x: x ** 2, np.square)}
-RED = {0: "sum", 1: "prod", 2: "max", 3: "min"}
+RED = {0: "sum", 1: "prod", 2: "max", 3: "min", 4: "mean"}
 EXC = {ValueError: 1, TypeError: 2, KeyError: 3}
 
 
